@@ -95,13 +95,16 @@ class C07(PropCheck):
                 continue
             names = l.split(" ; ")
             what = None
-            rid_of, stale, cls = {}, set(), None
+            rid_of, stale = {}, set()
             for k, (name, part) in enumerate(zip(names, io.split(" ; "))):
                 t = name.split()
                 if "new" in t and len(t) > t.index("new") + 3:
                     rid_of[t[t.index("new") + 1]] = int(t[t.index("new") + 3])
                 # `allow_multicast` is a plain attribute that takes effect "when setting the node_address"
-                # (docs/network_docs/network_api.rst): the node is not judged between the two assignments
+                # (docs/network_docs/network_api.rst): the node is not judged between the two assignments.
+                # A `multicast_level` assignment is judged like every other call, also on a node without
+                # multicasting: its pipe 0 must (still) be on the node's own address (phys_addr with am = False;
+                # former known finding C07-mclvl-no-multicast, fixed by 6a18625, regression line in corpus/C07)
                 if len(t) >= 3 and t[1] == "set" and t[0] in rid_of:
                     if t[2] == "allow_multicast":
                         stale.add(rid_of[t[0]])
@@ -139,15 +142,12 @@ class C07(PropCheck):
                             exp = phys_addr(addr, p, am, pfx, sfx, lvl)
                             if got[p] != exp:
                                 what = f"node {oct(addr)}: pipe {p} listens on {got[p].hex()}, its address is {exp.hex()}"
-                                if p == 0 and not am and len(t) >= 3 and t[1:3] == ["set", "multicast_level"] \
-                                        and rid_of.get(t[0]) == rid:
-                                    cls = "mclvl-no-multicast"   # open known finding (C07_finding_multicast_level)
                                 break
                     if what:
                         break
                 if what:
                     out.append(Finding(l, f"op {k} `{name if k else ' '.join(name.split()[3:])}`: {what}",
-                                       {"op_index": k, **({"class": cls} if cls else {})}))
+                                       {"op_index": k}))
                     break
         seen = {f.case for f in out}
         out += [f for f in judge_defaults(triples, self.impl) if f.case not in seen]
